@@ -1220,52 +1220,54 @@ func (c *Ctx) r069(rule, rel string) {
 			return hit
 		}
 		if tokVar != nil && cntVar != nil && len(heads) > 0 {
-			key := tokName + ".TokenType == xml.CommentToken"
-			nz := 0
-			var bad []string
-			for _, z := range g.Nodes {
-				as, ok := z.Stmt.(*ast.AssignStmt)
-				if !ok || z.Kind != flow.KStmt || len(as.Lhs) != 1 || len(as.Rhs) != 1 {
-					continue
-				}
-				id, ok := as.Lhs[0].(*ast.Ident)
-				if !ok || info.Uses[id] != cntVar {
-					continue
-				}
-				if v, isK := intConst(info, as.Rhs[0]); !isK || v != 0 {
-					continue
-				}
-				nz++
-				z := z
-				p1 := g.Path(flow.Search{From: heads, Goal: func(q *flow.Node) bool { return q == z }, Assume: map[string]bool{key: true}, Track: true, TrackFields: true,
-					Avoid: func(q *flow.Node) bool {
+			for _, kind := range []struct{ tok, what, sample string }{{"CommentToken", "comment", "]]<!--c-->&gt;"}, {"StartTagPIToken", "processing instruction", "]]<?pi x?>&gt;"}} {
+				key := tokName + ".TokenType == xml." + kind.tok
+				nz := 0
+				var bad []string
+				for _, z := range g.Nodes {
+					as, ok := z.Stmt.(*ast.AssignStmt)
+					if !ok || z.Kind != flow.KStmt || len(as.Lhs) != 1 || len(as.Rhs) != 1 {
+						continue
+					}
+					id, ok := as.Lhs[0].(*ast.Ident)
+					if !ok || info.Uses[id] != cntVar {
+						continue
+					}
+					if v, isK := intConst(info, as.Rhs[0]); !isK || v != 0 {
+						continue
+					}
+					nz++
+					z := z
+					p1 := g.Path(flow.Search{From: heads, Goal: func(q *flow.Node) bool { return q == z }, Assume: map[string]bool{key: true}, Track: true, TrackFields: true,
+						Avoid: func(q *flow.Node) bool {
+							for _, h := range heads {
+								if h == q {
+									return true
+								}
+							}
+							return false
+						}})
+					if p1 == nil {
+						continue
+					}
+					// the valuation at z along that path, plus the stipulation
+					init := g.ValuationAlong(p1, true)
+					init[key] = true
+					p2 := g.Path(flow.Search{From: []*flow.Node{z}, Goal: func(q *flow.Node) bool {
 						for _, h := range heads {
 							if h == q {
 								return true
 							}
 						}
-						return false
-					}})
-				if p1 == nil {
-					continue
-				}
-				// the valuation at z along that path, plus the stipulation
-				init := g.ValuationAlong(p1, true)
-				init[key] = true
-				p2 := g.Path(flow.Search{From: []*flow.Node{z}, Goal: func(q *flow.Node) bool {
-					for _, h := range heads {
-						if h == q {
-							return true
-						}
+						return q.Kind == flow.KExit
+					}, Init: init, Track: true, TrackFields: true, Avoid: writes})
+					if p2 != nil {
+						bad = append(bad, c.pos(as))
 					}
-					return q.Kind == flow.KExit
-				}, Init: init, Assume: map[string]bool{key: true}, Track: true, TrackFields: true, Avoid: writes})
-				if p2 != nil {
-					bad = append(bad, c.pos(as))
 				}
+				c.R.Check(len(bad) == 0, rule, fmt.Sprintf("%s.Minifier.Minify/bracket count survives a %s that is dropped", rel, kind.what), c.pos(fd), fmt.Sprintf("%d resets examined", nz),
+					"the count of `]` that ended the character data written before is set to 0 ("+strings.Join(bad, ", ")+") for a "+kind.what+" for which nothing is written: the text in front of it and the text behind it become one run in the output, and `"+kind.sample+"` is written as `]]>`, which is not well-formed")
 			}
-			c.R.Check(len(bad) == 0, rule, fmt.Sprintf("%s.Minifier.Minify/bracket count survives a comment that is dropped", rel), c.pos(fd), fmt.Sprintf("%d resets examined", nz),
-				"the count of `]` that ended the character data written before is set to 0 ("+strings.Join(bad, ", ")+") for a comment for which nothing is written: the text in front of the comment and the text behind it become one run in the output, and `]]<!--c-->&gt;` is written as `]]>`, which is not well-formed")
 		}
 	}
 	// (c) the escaper itself is the one-pass counter automaton
